@@ -328,11 +328,17 @@ pub fn check_c04_with(payload: &Doc, out: &Outcome, tag_exempt: &[String], ambig
     let fr = frames(&out.events);
     // frame stack at creation of each report id
     let mut born: Vec<(u32, Vec<usize>, Loc)> = vec![];
+    // reports built by user functions carry the location user code chose (a container try_from
+    // function is given none and can only name the origin): not a statement of the library
+    let mut user_made: Vec<u32> = vec![];
     for (i, e) in out.events.iter().enumerate() {
         let frame_loc: Option<&Loc> = fr.stack_at[i].last().and_then(|j| out.events[*j].loc());
         match e {
-            Event::Report { id, kind, loc, .. } => {
+            Event::Report { id, kind, loc, answer_ignored, .. } => {
                 born.push((*id, fr.stack_at[i].clone(), loc.clone()));
+                if *answer_ignored {
+                    user_made.push(*id);
+                }
                 let Some(at) = payload.resolve(loc) else {
                     return Err(format!("report location {} does not exist in the payload: {e:?}", loc_str(loc)));
                 };
@@ -435,7 +441,7 @@ pub fn check_c04_with(payload: &Doc, out: &Outcome, tag_exempt: &[String], ambig
                     let Some((_, stack, rloc)) = born.iter().find(|(id, _, _)| id == oid) else {
                         return Err(format!("hand-over of unknown report {oid}"));
                     };
-                    if !is_prefix(loc, rloc) {
+                    if !is_prefix(loc, rloc) && !user_made.contains(oid) {
                         return Err(format!(
                             "error handed over at {} holds a report made at {}, which is not below it",
                             loc_str(loc),
